@@ -1,3 +1,63 @@
-(** placeholder *)
-From Xds Require Import Model.ConcCheck.
-Theorem C05_placeholder : True. Proof. exact I. Qed.
+(** C05 — Lookup returns a value of the requested kind xor an error, in bounded time.
+    Statements only; proofs are [exact] of lemmas in Proofs/ConcProofs.v.  Schedules are lists
+    of events of Model/Conc.v: every interleaving of lookups (at Get's lock-free gaps), deliveries
+    and deadline firings is such a list; the theorems quantify over ALL of them. *)
+From Xds Require Import Model.Base Model.Conc Proofs.ConcProofs.
+Open Scope N_scope.
+
+(** In every state reachable by any schedule, a finished lookup has a value or an error:
+    never nil-and-nil, never both, never anything else. *)
+Theorem C05_value_xor_error : forall h t th r,
+  kget t (c_threads (crun h)) = Some th -> th_st th = TDone r ->
+  match r with RVal _ | RErr => True | _ => False end.
+Proof. exact (fun h => crun_results_good h). Qed.
+Print Assumptions C05_value_xor_error.
+
+(** A value returned is the content the cache holds for the requested key at the very step that
+    returns it (so it is of the requested kind and was supplied by the control plane); an error
+    is returned only if the key is absent at that step, the kind is unknown, or the lookup's own
+    deadline fired. *)
+Theorem C05_value_is_current : forall s e t r,
+  thread_result s t = None -> thread_result (cstep s e) t = Some r ->
+  exists th, kget t (c_threads (cstep s e)) = Some th /\
+    match r with
+    | RVal v => kget (th_key th) (c_cache s) = Some v
+    | RErr => kget (th_key th) (c_cache s) = None \/ (exists k, e = EInvokeBad t /\ k = 0) \/ (e = ETimeout t)
+    | _ => False
+    end.
+Proof. exact step_reads_current. Qed.
+Print Assumptions C05_value_is_current.
+
+(** Bounded steps: the rank of a lookup (3 new, 2 missed, 1 waiting, 0 returned) never increases
+    and strictly decreases with each of its own enabled steps: at most three own steps. *)
+Theorem C05_bounded_steps : forall s e t th th',
+  kget t (c_threads s) = Some th -> kget t (c_threads (cstep s e)) = Some th' ->
+  (rank (th_st th') <= rank (th_st th))%nat /\
+  ((e = EStep t \/ e = EWake t \/ e = ETimeout t) -> enabled s e = true -> (rank (th_st th') < rank (th_st th))%nat).
+Proof. exact own_step_decreases. Qed.
+Print Assumptions C05_bounded_steps.
+
+(** Progress: a lookup's next own step is enabled unless it waits with an open notifier and an
+    unfired deadline; once its deadline has fired it can always return. *)
+Theorem C05_progress : forall s t th,
+  kget t (c_threads s) = Some th ->
+  match th_st th with
+  | TMissed => enabled s (EStep t) = true
+  | TWaiting nid => and (nmem nid (c_closed s) = true -> enabled s (EWake t) = true)
+                        (th_fired th = true -> enabled s (ETimeout t) = true)
+  | _ => True
+  end.
+Proof. exact own_step_enabled. Qed.
+Print Assumptions C05_progress.
+
+(** An unknown kind is rejected at its first step. *)
+Theorem C05_unknown_kind : forall s t,
+  kget t (c_threads s) = None -> thread_result (cstep s (EInvokeBad t)) t = Some RErr /\
+  c_watches (cstep s (EInvokeBad t)) = c_watches s /\ c_nmap (cstep s (EInvokeBad t)) = c_nmap s.
+Proof. exact unknown_kind_rejected. Qed.
+Print Assumptions C05_unknown_kind.
+
+Example C05_example :
+  (* the wake-up/removal race: delivered, then removed by a full response before the woken lookup re-reads: an error, not nil *)
+  thread_result (crun [EInvoke 0 7; EStep 0; EDeliver true [(7, 42)] [7; 8]; EDeliver true [(8, 43)] [7; 8]; EWake 0]) 0 = Some RErr.
+Proof. exact C05_example_proof. Qed.
